@@ -38,8 +38,9 @@ Theorem sw_loop_spec c tabs e T acc word : wf_sub T -> forall fuel state ci log,
     sw_loop fuel Repaired c tabs e T acc word state ci log = spec_sw_loop fuel c tabs e T acc word state ci log.
 Proof.
   intros Hwf. induction fuel as [|fuel IH]; intros state ci log; [reflexivity|].
-  rewrite sw_loop_S. cbn [spec_sw_loop quirky orb].
+  rewrite sw_loop_S. cbn [spec_sw_loop quirky orb]. unfold star_first. cbn [quirky negb andb].
   destruct (Nat.leb (String.length word) ci) eqn:El; [reflexivity|].
+  destruct (negb c && match t_mstar T with Some stars => has_key state stars | None => false end); [reflexivity|].
   apply Nat.leb_gt in El. cbv zeta.
   pose proof (sdrop_nonempty ci word El) as Hs.
   assert (Tail : forall log0,
